@@ -14,7 +14,7 @@ def CanonV : PV → Prop
   | .bool _ => True
   | .int i => -9223372036854775808 ≤ i ∧ i ≤ 9223372036854775807
   | .str s => s.length ≤ maxInt
-  | .float => False
+  | .float r => floatLex r = true ∧ 59 ∉ r
   | .arr items => CanonItems items ∧ items.len ≤ maxInt
   | .obj props => CanonProps props ∧ props.len ≤ maxInt ∧ props.len ≠ 0 ∧ (PL.keys props).Nodup
 def CanonItems : PL → Prop
@@ -87,5 +87,25 @@ theorem pInt_ser (i : Int) (rest : Bytes) (h1 : -9223372036854775808 ≤ i) (h2 
     rw [if_pos hn]
     have : ((i.toNat : Nat) : Int) = i := by omega
     rw [this]; rfl
+
+theorem splitSemi_append : (t : Bytes) → ∀ rest, 59 ∉ t → splitSemi (t ++ 59 :: rest) = some (t, rest)
+  | [], rest, _ => by simp [splitSemi]
+  | c :: tl, rest, h => by
+    simp only [List.mem_cons, not_or] at h
+    have := splitSemi_append tl rest h.2
+    simp only [List.cons_append, splitSemi, this]
+    rw [if_neg (fun e => h.1 e.symm)]
+
+theorem pFloat_ser (t rest : Bytes) (hl : floatLex t = true) (h59 : 59 ∉ t) :
+    pFloat (58 :: (t ++ 59 :: rest)) = some (.float t, rest) := by
+  simp [pFloat, splitSemi_append t rest h59, hl]
+
+theorem pValue_float (t rest : Bytes) (hl : floatLex t = true) (h59 : 59 ∉ t) (fuel : Nat) :
+    pValue (fuel + 1) ([100, 58] ++ t ++ [59] ++ rest) = some (.float t, rest) := by
+  have : [100, 58] ++ t ++ [59] ++ rest = 100 :: 58 :: (t ++ 59 :: rest) := by simp
+  rw [this, pValue]
+  simp only [show ¬ (100 : Nat) = 78 by decide, show ¬ (100 : Nat) = 98 by decide,
+    show ¬ (100 : Nat) = 105 by decide, show ¬ (100 : Nat) = 115 by decide, if_false, if_true]
+  exact pFloat_ser t rest hl h59
 
 end Proofs.Ser
